@@ -77,9 +77,32 @@ def build_op(desc):
         del lookup
         return second.jobs[j][p]
     _, ms, d, j, p, i, path = desc
-    op = Operation(ms[0] if (path == 1 and len(ms) == 1) else list(ms), d)
+    cls = Operation
+    if (j + p + i) % 3 == 0:
+        # a user subclass declaring slots of its own (the documented way of attaching due dates, priorities ...):
+        # it is an Operation all the same, compared by the same five fields
+        cls = _tagged_operation_class()
+    op = cls(ms[0] if (path == 1 and len(ms) == 1) else list(ms), d)
     op.job_id, op.position_in_job, op.operation_id = j, p, i
     return op
+
+
+_TAGGED = []
+
+
+def _tagged_operation_class():
+    if not _TAGGED:
+        from job_shop_lib import Operation
+
+        class TaggedOperation(Operation):
+            __slots__ = ("due_date",)
+
+            def __init__(self, machines, duration):
+                super().__init__(machines, duration)
+                self.due_date = 7
+
+        _TAGGED.append(TaggedOperation)
+    return _TAGGED[0]
 
 
 def build_foreign(t, z):
